@@ -2,6 +2,7 @@ mod c05;
 mod c07;
 mod c08;
 mod c09;
+mod c16;
 mod dbg;
 mod hist;
 
@@ -44,6 +45,18 @@ fn main() {
             "frontier tick overflow is not injected (no public way to register a frontier at MAX)",
         ],
         subs: c09::subs,
+        max_shards: 16,
+    },
+    Property {
+        id: "C16",
+        level: "exploration",
+        rule: "proptest: generated runtime histories (1-2 worldlines x 1-2 heads, scripts of <=36 submit/retry/pass/pause/checkpoint steps plus host-side emissions into the materialization bus so that recorded truth channels are non-empty; three contract query observers installed: answering, failing, residual). A generated list of 4-28 requests - observation requests over every frame x projection pairing (valid and invalid), Frontier and Tick(t) for t in 0..len+2, channel filters, four query ids, bounded/unbounded budgets, scoped rights, observer instances, mismatching plans, unknown worldlines; optic requests over focus x coordinate (frontier, tick, full provenance coordinate with genuine / foreign commit id and genuine / foreign worldline, strand) x six aperture shapes x byte/tick budgets - is served against the history, each request twice; then 1-16 more steps and a flush pass commit further ticks and a worldline is forked in provenance; every request that named a historical coordinate is asked again verbatim and the whole list is served afresh. Oracles: (1) `{:#?}` of WorldlineRuntime and ProvenanceService, full state fingerprints, inbox pending counts, global tick and the engine snapshot/bus are identical around every read; (2) the two servings are equal including artifact_hash, and different artifacts never share a hash; (3) the resolved coordinate, commit id, state root, commit global tick, recorded outputs (captured from provenance when the tick committed) and query bytes of a reading equal the harness's live ledger at that coordinate and the root / commit id of the state replayed at it from a checkpoint-free copy; historical readings are content-identical after later commits and forks (the asking-time freshness stamp excluded); optic readings equal the plain observation of the same coordinate; (4) every invalid or unavailable request is refused with the documented typed error class (exactly one invalid aspect -> exactly that class), valid requests are served unless their own declared budget is exceeded, a bounded reading never exceeds its budget. Non-trivial = at least one historical request re-asked after the history grew.",
+        assumptions: &[
+            "observed_after_global_tick is an asking-time freshness stamp by design: it (and the artifact hash covering it) is compared between repeats at the same frontier only",
+            "the query observers are harness code: they answer as a pure function of the resolved coordinate handed to them, so the check decides whether the service resolves and passes the right coordinate",
+            "KernelPort::observe / observe_cbor (warp-wasm) are exercised by the C13 totality targets, not here",
+        ],
+        subs: c16::subs,
         max_shards: 16,
     },
     Property {
